@@ -37,9 +37,9 @@ def fe_harness0(rep, cfg, modpath, fn, in_bounds, spec, out_bound, tier, extra_i
                      "input limbs <= %s ; all values" % (in_bounds,), timeout_s=timeout_s, replay=replay, selftest=build_run,
                      assumptions=[note] if note else [])
 
-def run_config(rep, cfg, tier, tasks):
+def run_config(rep, cfg, tier, tasks, flavour="O3"):
     F = FIELD[cfg]; lay = F["layout"]
-    modpath = build.ir(cfg, "O3")
+    modpath = build.ir(cfg, flavour)
     T = 120 if tier == "quick" else 600
     sq2 = [2 * x + 1 for x in F["reduced"]] if cfg.startswith("serial") else F["reduced"]
     def fe_harness(*a, **kw): tasks.append(lambda: fe_harness0(*a, **kw))
